@@ -23,7 +23,68 @@ def make(sh):
 def obligations(tier, seed):
     obs = [make(sh) for sh in stmt.corpus(tier, seed) + stmt.invalid_corpus(tier, seed)]
     obs += [make_line(sh) for sh in stmt.line_corpus(tier, seed)]
+    obs += termination_obligations(tier, seed)
+    obs += cli_obligations(tier, seed)
     return obs
+
+
+def termination_obligations(tier, seed):
+    """every C03 template (branches, label,PCR forward/backward/nested, symbolic gaps) must end: outcome != loop/internal"""
+    from . import c03, prog as _prog
+    out = []
+    for ob in c03.obligations(tier, seed):
+        tid = ob.oid[4:]
+        tpl = _prog.Template(tid, ob.items)
+
+        def body(ctx, tpl=tpl, tid=tid):
+            r = _prog.run(ctx, tpl)
+            info = {"lines": r.lines, "outcome": r.out.describe()}
+            if r.out.kind in ("ok", "diag"):
+                return True, info
+            env = {"kind": r.out.kind, "exc": r.out.exc_name, "site": r.out.site, "tpl": tid.split(":")[0]}
+            env.update(r.vals)
+            return ctx.known(PID, {"part": "termination", "tpl": tid.split(":")[0]}, env), info
+        out.append(Ob("C13:term:" + tid, body, timeout=120, tags={"part": "termination", "tpl": tid.split(":")[0]}, text=tpl.text))
+    return out
+
+
+def cli_obligations(tier, seed):
+    """assembler.main on the in-memory host FS: a diagnostic => exit status != 0 and no output file created or modified"""
+    from vlib.harness import MemFS
+    from . import cli
+    progs = {
+        "undefined": [" ORG $1000", " LDA NOWHERE", " RTS"],
+        "bad-mnemonic": [" NAM X", " FROB 1"],
+        "bad-operand": [" NAM X", " LDA #$12345"],
+        "dup-label": [" NAM X", "L NOP", "L NOP"],
+        "bad-mode": [" NAM X", " STA #1"],
+        "missing-include": [" NAM X", " INCLUDE gone.asm"],
+        "include-cycle": [" NAM X", " INCLUDE p.asm"],
+        "far-branch": [" NAM X", "A BRA B", " RMB 200", "B NOP"],
+        "empty-operand": [" NAM X", " RMB"],
+        "unterminated": [" NAM X", ' FCC "abc'],
+    }
+    out = []
+    for name, lines in progs.items():
+        for pre in ("absent", "present"):
+            def body(ctx, lines=lines, pre=pre):
+                fsinit = {"p.asm": [l + "\n" for l in lines]}
+                if pre == "present":
+                    for t in ("o.bin", "o.cas", "o.dsk"):
+                        fsinit[t] = [1, 2, 3]
+                with MemFS(fsinit) as fs:
+                    r = cli.run_assembler(to_bin="o.bin", to_cas="o.cas", to_dsk="o.dsk", name="CLI", append=True)
+                    writes = list(fs.writes)
+                    left = {t: fs.files.get(t) for t in ("o.bin", "o.cas", "o.dsk")}
+                info = {"exit": r.exit, "exc": r.exc, "writes": writes, "stdout": r.out[-200:]}
+                untouched = all((v is None) if pre == "absent" else (v == [1, 2, 3]) for v in left.values())
+                ok = r.exc is None and r.exit not in (None, 0) and not writes and untouched and r.out.strip() != ""
+                if ok:
+                    return True, info
+                return ctx.known(PID, {"part": "cli"}, {"exit": r.exit, "exc": r.exc, "writes": writes}), info
+            ob = Ob("C13:cli:%s:%s" % (name, pre), body, timeout=60, tags={"part": "cli"}, text="assembler.main on %r, outputs %s" % (lines, pre), r4=False)
+            out.append(ob)
+    return out
 
 
 def make_line(sh):
